@@ -4,15 +4,10 @@ import ExaModel.Props.C08
 #print axioms Exa.Props.C08.table_flags_exclusive
 #print axioms Exa.Props.C08.table_classes_rfc_partial
 #print axioms Exa.Props.C08.mp_nh_table_sub
-#print axioms Exa.Props.C08.c08_any_repair_state
+#print axioms Exa.Props.C08.c08_general
 #print axioms Exa.Props.C08.c08_repaired
 #print axioms Exa.Props.C08.c08_partial
-#print axioms Exa.Props.C08.c08_overrun_repaired
+#print axioms Exa.Props.C08.c08_overrun
 #print axioms Exa.Props.C08.overrun_never_kept
 #print axioms Exa.Props.C08.parse_errors_are_update_errors
-#print axioms Exa.Props.C08.c08_fails_origin9
-#print axioms Exa.Props.C08.c08_fails_med3
-#print axioms Exa.Props.C08.c08_fails_overrun
-#print axioms Exa.Props.C08.c08_fails_nexthop16
 #print axioms Exa.Props.C08.c08_fails_segment0
-#print axioms Exa.Props.C08.c08_fails_flags
